@@ -53,7 +53,7 @@ func init() {
 			NRandom: 60, MaxTraces: 60,
 			Gen:   genParams{NBlob: 12, NTree: 14, NCommit: 12, NTag: 5, MaxEnt: 4, MaxBlob: 300, Merges: true, RootKinds: "mixed"},
 			Fails: scanFails["C01"],
-			Extra: wideCases("c01"),
+			Extra: append(wideCases("c01"), rootKindCases("c01")...),
 			Rule:  "TLC family Mixed (<=2 blobs, 2 trees, 2 commits, 1 tag; roots of every kind, walked or not, references or ROOT arguments) x all delivery orders, every behaviour replayed into sizes.Graph; plus materialised repositories (TLC graphs and random graphs with merges, shared subtrees, tags of anything, noise, unselected refs, ROOT arguments) scanned by the binary; distinct = distinct (graph, roots, order) / (graph, arguments)",
 		}
 		if !quick(c) {
@@ -78,7 +78,7 @@ func init() {
 			Check: []scanCfg{cm, tr, dup}, Export: []scanCfg{cm, tr, dup}, MaxAPI: 6000, MaxCLIFromTLC: 50,
 			NRandom: 50, MaxTraces: 50,
 			Gen:   genParams{NBlob: 10, NTree: 10, NCommit: 10, NTag: 3, MaxEnt: 5, MaxBlob: 40, Merges: true, RootKinds: "refs"},
-			Fails: scanFails["C02"],
+			Fails: scanFails["C02"], Extra: octopusCases("c02"),
 			Rule:  "TLC families Commits (all DAGs, tied sizes; also with repeated parent headers) and Trees (tied blob sizes) x all orders, so the maximal object is first/middle/last and tied; random repositories with few distinct sizes; distinct = distinct (graph, order) / (graph, arguments)",
 		}
 		if !quick(c) {
@@ -100,7 +100,7 @@ func init() {
 			Check: []scanCfg{cm, tg}, Export: []scanCfg{cm, tg}, MaxAPI: 8000, MaxCLIFromTLC: 100,
 			NRandom: 40, MaxTraces: 60,
 			Gen:   genParams{NBlob: 3, NTree: 4, NCommit: 16, NTag: 8, MaxEnt: 2, MaxBlob: 20, Merges: true, RootKinds: "refs"},
-			Fails: scanFails["C03"], Extra: tagChainCases("c03"),
+			Fails: scanFails["C03"], Extra: append(tagChainCases("c03"), octopusCases("c03")...),
 			Rule: "TLC families Commits (all DAGs on <=4 commits x all parents-first orders) and Tags (all forests on <=3 tags x all orders), replayed into sizes.Graph; every DAG also materialised with permuted timestamps and scanned by the binary; distinct = distinct (graph, order) / (graph, dates)",
 		}
 		if !quick(c) {
